@@ -191,17 +191,19 @@ Theorem raft_model_passes_monitor k cmds es :
 Proof. exact (model_passes_monitor_l k cmds es). Qed.
 Print Assumptions raft_model_passes_monitor.
 
-(* ... and the monitor is exactly these conjuncts plus the one of C17 (the readiness bound) *)
+(* ... and the monitor is exactly these conjuncts plus the one of C17 (the readiness bound) and the shutdown clause (pass 3,
+   stop_run: the pass-1 model has no lock; the clause is proved of the model's shutdown below) *)
 Theorem raft_model_passes_spec_okb k cmds es :
   tag_of cmds es = 0 -> trace_wf k cmds es = true -> model_eqb k cmds es = true ->
-  spec_run_sel (fun e => negb (core e)) cmds [] (repeat snode0 (nn k)) es = true -> spec_okb k cmds es = true.
+  spec_run_sel (fun e => negb (core e)) cmds [] (repeat snode0 (nn k)) es = true -> stop_run stopst0 es = true ->
+  spec_okb k cmds es = true.
 Proof. exact (model_passes_spec_okb_l k cmds es). Qed.
 Print Assumptions raft_model_passes_spec_okb.
 
 (* the same read as the runner reads it: on a trace the model accepts, a code-2 failure never comes with tag 0 *)
 Theorem raft_no_untagged_failure k cmds es :
   trace_wf k cmds es = true -> model_eqb k cmds es = true ->
-  spec_run_sel (fun e => negb (core e)) cmds [] (repeat snode0 (nn k)) es = true ->
+  spec_run_sel (fun e => negb (core e)) cmds [] (repeat snode0 (nn k)) es = true -> stop_run stopst0 es = true ->
   spec_okb k cmds es = false -> tag_of cmds es <> 0.
 Proof. exact (no_untagged_failure_l k cmds es). Qed.
 Print Assumptions raft_no_untagged_failure.
@@ -311,3 +313,49 @@ Example raft_late_snapshot_unused_passes :
   model_eqb 1 monitor_demo_cmds es = true /\ trace_guard 1 monitor_demo_cmds es = false /\
   spec_okb 1 monitor_demo_cmds es = true /\ tag_of monitor_demo_cmds es = 0.
 Proof. repeat split; vm_compute; reflexivity. Qed.
+
+(* ---- clean shutdown ---- *)
+(* Consensus.Shutdown holds shutdownLock (write) from before its final snapshot until Raft has stopped; commit() holds the read side
+   around CommitOp. In the model: `shutdown n` = the final snapshot requested and written with nothing committed in between.
+   For every schedule with atomic snapshots followed by a shutdown of n: an operation that was acknowledged at n - in the log at a
+   position n has applied (raft_ack_visible_on_committer) - is what OfflineState of n's folder holds for its cid, and what n holds
+   after it has started again from that folder (before it replays anything), unless an entry n applied later writes the cid *)
+Theorem raft_shutdown_loses_nothing_acknowledged k es n nd j op x :
+  clean es -> run_ok ev_atomic (init k) es = true -> nth_error (nodes (final k es)) n = Some nd ->
+  nth_error (log (final k es)) j = Some op -> (j < applied nd)%nat ->
+  writes x op = true -> existsb (writes x) (slice (S j) (applied nd) (log (final k es))) = false ->
+  let cl' := run (final k es) (shutdown n) in
+  sget x (offline (getn n cl')) = effect op /\
+  sget x (st (getn n (run cl' (from_disk n (length (snaps nd)))))) = effect op.
+Proof. exact (shutdown_loses_nothing_l k es n nd j op x). Qed.
+Print Assumptions raft_shutdown_loses_nothing_acknowledged.
+
+(* without the lock discipline: a pin committed, applied and acknowledged at the replica between its final snapshot and its stop
+   is not in what OfflineState reads (seed C01d: Shutdown releases shutdownLock before the final snapshot) *)
+Theorem raft_shutdown_race_refuted :
+  exists k es n j op x, clean es /\ run_ok ev_atomic (init k) es = true /\
+    nth_error (log (final k es)) j = Some op /\ (j < applied (getn n (final k es)))%nat /\ writes x op = true /\
+    sget x (offline (getn n (final k es))) <> effect op.
+Proof. exact shutdown_race_refuted_l. Qed.
+Print Assumptions raft_shutdown_race_refuted.
+
+(* the run-time form (pass 3 of spec_okb): when Shutdown has returned on n, every position acknowledged with committer n lies below
+   a label n has persisted *)
+Theorem raft_stop_monitor_sound pre n post : stop_run stopst0 (pre ++ OStopped n :: post) = true ->
+  (nget n (t_ack (stop_after stopst0 pre)) <= nget n (t_lbl (stop_after stopst0 pre)))%nat.
+Proof. exact (stop_run_sound_l pre stopst0 n post). Qed.
+Print Assumptions raft_stop_monitor_sound.
+
+(* a member shuts down after its final snapshot covered everything acknowledged at it: accepted. The same with a pin acknowledged at
+   it between the final snapshot and the stop (what rig R2 records under seed C01d): the model agrees with every observation - the
+   snapshot is not late, OfflineState is the prefix it is labelled with - and the monitor refuses the trace, with tag 0 *)
+Example raft_shutdown_examples :
+  let cmds := monitor_demo_cmds in
+  let ok := [OCommit 0; OApply 0 0; OAck 0 0; OCommit 1; OApply 0 1; OAck 1 0; OSnapReq 0 true; OPersist 0; OStopped 0;
+             OOffline 0 [wpin 0 1; wpin 1 1]; ORestart 0; ORestore 0 0 0 2; OObs 0 (Some [wpin 0 1; wpin 1 1])] in
+  let race := [OCommit 0; OApply 0 0; OAck 0 0; OSnapReq 0 true; OPersist 0; OCommit 1; OApply 0 1; OAck 1 0; OStopped 0;
+               OOffline 0 [wpin 0 1]; ORestart 0; ORestore 0 0 0 1; OApply 0 1; OObs 0 (Some [wpin 0 1; wpin 1 1])] in
+  (model_eqb 1 cmds ok = true /\ spec_okb 1 cmds ok = true) /\
+  (model_eqb 1 cmds race = true /\ trace_guard 1 cmds race = true /\ spec_okb 1 cmds race = false /\ tag_of cmds race = 0).
+Proof. repeat split; vm_compute; reflexivity. Qed.
+
